@@ -114,6 +114,23 @@ claim('C03',
       'DESIGN.md 4 C03',
       technique='contract-style assertions over the real extracted bodies, discharged by CBMC 6.11 for all inputs (loop-free: complete); no DFCC because of varargs')
 
+claim('C02',
+      'Function and loop contracts on the real leaf readers - ReaderBase::ReadChar, TextReader::{SkipSpace, ReadTillEndOfLine, '
+      'ReadIntWithoutSign<int|unsigned|size_t>, DoReadOptionalInt, ReadUInt<int|size_t>, ReadUInt(int&), ReadOptionalUInt, '
+      'ReadDouble, ReadOptionalDouble, ReadString, ReadName, DoReportError}, the whole ReadHeader, BinaryReaderBase::Read, '
+      'BinaryReader::{ReadInt<short|int|long>, ReadUInt, ReadDouble, ReadString}, EndiannessConverter::Convert - and on the range '
+      'checks of NLReader (ReadUInt(ub), ReadUInt(lb,ub), ReadNumArgs, ReadOpCode, ReadLinearExpr(n,h)), for a buffer of any length '
+      'and content: the cursor stays in [start_, end_], moves forward only, no UB, every integer handed on lies in its type\'s '
+      'range and inside the bound passed, common-expression counts cannot overflow, ReadLinearExpr delivers exactly the '
+      'announced number of terms with variable indices inside the header range.',
+      'Trusted: CBMC, extractor, *end_ == 0 (ReaderBase ctor / zero-filled mmap tail), isspace/strtod/memcpy/std::reverse stubs. '
+      'Callers use constructive stubs of the callee contracts (a contract that assigns the global cursor cannot be replaced in '
+      'CBMC without losing points-to information); each stub is checked against the contract text. Not under contract: the '
+      'segment switch of NLReader::Read, the recursive expression readers, ReadBounds/ReadColumnSizes/ReadInitialValues/'
+      'ReadSuffix (handler-type templates), nesting, file = memory path, READ_BOUNDS_FIRST. DoReportError under an assumed '
+      'call-history precondition. Replay by recorded inputs under ASan/UBSan.',
+      'DESIGN.md 4 C02')
+
 for pid, reason in [
     ('C01', 'relational whole-pipeline equivalence across ~12k lines of CRTP templates; no function boundary carries it and the code is outside the mechanically extractable C subset (DESIGN.md 5)'),
     ('C09', 'whole-process behaviour (exit status, files, exception propagation through try/catch) - not expressible as function contracts here (DESIGN.md 5)'),
